@@ -410,6 +410,11 @@ def rule_walkers(F, rep, rid, names, floor, what):
             why.append('the recursive call is made only under `%s`' % '`, `'.join(inner))
         if exits:
             why.append('a `%s` at line %s can be taken before the descent' % (exits[0]['k'].lower(), exits[0].get('l')))
+        # a walker that hands its findings back as a value must take what the descent returns: a bare `walk(child);` visits the subtree and drops everything found there
+        if (g.j.get('ret') or 'void') != 'void':
+            dropped = [c for c in rec if g.key in F.callee_keys(c) and (g.parent(c) or {}).get('k') in ('Compound', 'For', 'RangeFor', 'While', 'If')]
+            if dropped:
+                why.append('the value returned by the recursive call at line %s is discarded' % dropped[0].get('l'))
         rep.check(not why, rid, '%s|descends into every child' % label, g.where(loop), '%s: %s' % (g.short, '; '.join(why)), 'unconditional descent' + ('' if label == g.name else ' (in %s, to which %s hands over)' % (g.name, label)))
     missing = set(names) - seen
     for nm in sorted(missing):
